@@ -914,7 +914,7 @@ pub fn exec(sc: &Scenario, opts: &ExecOpts) -> RunOutcome {
     // last-resort watchdog for a loop that contains no yield point (no grammar terminal, no file
     // operation): wall-clock time is used only here, and only to end such an execution
     let limit = std::time::Duration::from_secs(
-        std::env::var("SVSIM_WATCHDOG_S").ok().and_then(|s| s.parse().ok()).unwrap_or(90),
+        std::env::var("SVSIM_WATCHDOG_S").ok().and_then(|s| s.parse().ok()).unwrap_or(240),
     );
     let stdout = child.stdout.take();
     let reader = std::thread::spawn(move || {
